@@ -61,7 +61,10 @@ func (p *Protocol) downloadBlock(height int64, tasks tasks, tasksMu ...*sync.Mut
 		}
 	}
 
+	// every height has its own worker: it removes the peers that failed for this height from its
+	// own list, not from the array shared with the workers of the other heights
 	lockTasks()
+	tasks = tasks.clone()
 	tasks.Sort()
 	unlockTasks()
 ReDownload:
@@ -97,7 +100,7 @@ ReDownload:
 		log.Error("handleEventDownloadBlock", "SendRecvPeer", err, "pid", task.Pid)
 		p.releaseJob(task)
 		lockTasks()
-		tasks = tasks.Remove(task)
+		tasks = tasks.drop(task)
 		unlockTasks()
 		goto ReDownload
 	}
